@@ -6,6 +6,7 @@ import (
 	"verif/prop/c05"
 	"verif/prop/c06"
 	"verif/prop/c07"
+	"verif/prop/c08"
 	"verif/prop/c09"
 	"verif/prop/c12"
 	"verif/prop/c15"
@@ -26,6 +27,7 @@ var All = map[string]Prop{
 	"C05": {Level: "model_checking", Check: c05.Check, Replay: c05.Replay},
 	"C06": {Level: "model_checking", Check: c06.Check, Replay: c06.Replay},
 	"C07": {Level: "model_checking", Check: c07.Check, Replay: c07.Replay},
+	"C08": {Level: "model_checking", Check: c08.Check, Replay: c08.Replay},
 	"C09": {Level: "model_checking", Check: c09.Check, Replay: c09.Replay},
 	"C12": {Level: "model_checking", Check: c12.Check, Replay: c12.Replay},
 	"C15": {Level: "model_checking", Check: c15.Check, Replay: c15.Replay},
